@@ -665,6 +665,31 @@ Section FrameProofs.
       + unfold loop_post; cbn [fst snd]. repeat split; try congruence; lia.
       + exfalso; apply R0; reflexivity.
   Qed.
+  (* the fuel of the reassembly loops is sufficient: more fuel never changes the result,
+     i.e. the fuel-exhausted branch is unreachable and the model is the Go loop *)
+  Lemma read_next_loop_fuel fuel : forall k c acc m,
+    (N.to_nat (lenN (c_in c)) < fuel)%nat ->
+    read_next_loop encrypted open_ (fuel + m) k c acc = read_next_loop encrypted open_ fuel k c acc.
+  Proof.
+    induction fuel as [|f IH]; intros k c acc m Hf; [lia|].
+    cbn [plus read_next_loop].
+    destruct (recv_frame encrypted open_ k c) as [c1 [[d flag]| |]] eqn:R; try reflexivity.
+    apply recv_frame_spec in R. destruct R as (_ & _ & _ & _ & R4).
+    destruct (flag =? EndFlagPartial); [|reflexivity].
+    apply IH. cbn [c_make c_in]. lia.
+  Qed.
+  Lemma recv_complete_loop_fuel fuel : forall k c acc m,
+    (N.to_nat (lenN (c_in c)) < fuel)%nat ->
+    recv_complete_loop encrypted open_ (fuel + m) k c acc = recv_complete_loop encrypted open_ fuel k c acc.
+  Proof.
+    induction fuel as [|f IH]; intros k c acc m Hf; [lia|].
+    cbn [plus recv_complete_loop].
+    destruct (recv_frame encrypted open_ k c) as [c1 [[d flag]| |]] eqn:R; try reflexivity.
+    apply recv_frame_spec in R. destruct R as (_ & _ & _ & _ & R4).
+    destruct (flag =? EndFlagComplete); [reflexivity|].
+    destruct (flag =? EndFlagPartial); [|reflexivity].
+    apply IH. cbn [c_make c_in]. lia.
+  Qed.
 End FrameProofs.
 
 (* ---------- blob and text parsers never panic ------------------------------------------------------- *)
@@ -927,3 +952,14 @@ Lemma crypto_state_total blob :
   parse_crypto_state blob <> None /\
   (forall s a, parse_crypto_state blob = Some (Some (s, a)) -> a <= 32 + lenN blob).
 Proof. split; [apply parse_crypto_state_total|apply parse_crypto_state_alloc]. Qed.
+
+Lemma reassembly_fuel_sufficient (encrypted : bool) open_ :
+  (forall k h b p, open_ k h b = Some p -> lenN p <= lenN b) ->
+  forall k c m,
+    read_next_loop encrypted open_ (frames_fuel c + m) k c [] = read_next_frame encrypted open_ k c /\
+    recv_complete_loop encrypted open_ (frames_fuel c + m) k c [] = receive_complete_message encrypted open_ k c.
+Proof.
+  intros Hopen k c m. unfold read_next_frame, receive_complete_message, frames_fuel. split.
+  - apply (read_next_loop_fuel encrypted open_ Hopen). lia.
+  - apply (recv_complete_loop_fuel encrypted open_ Hopen). lia.
+Qed.
